@@ -465,8 +465,12 @@ class CatalogWriter(AbstractContextManager, HandlesDataChunk):
     def __enter__(self) -> Self:
         return self
 
-    def __exit__(self, *args, **kwargs) -> None:
-        self.finalize()
+    def __exit__(self, exc_type=None, *args, **kwargs) -> None:
+        if exc_type is None:
+            self.finalize()
+        else:  # do not mark an incomplete cache as valid catalog
+            for writer in self.writers.values():
+                writer.close()
 
     @property
     def num_patches(self) -> int:
